@@ -181,26 +181,36 @@ class NormalsToEuler(Contract):
     prop = "C06"
     module = "geom"
     qual = "normals_to_euler_angles"
-    configs = [{"order": "zxz"}, {"order": "zzx"}]
+    configs = [{"order": "zxz"}, {"order": "zzx"}, {"order": "zxz", "input": "table"}]
 
     def cfg_name(self, cfg):
-        return cfg["order"]
+        return cfg["order"] + (",table-input" if cfg.get("input") else "")
 
     def bind(self, cx, cfg):
         it = common.geom_interp()
         n = [SV(z3.Real(f"n{a}")) for a in "xyz"]
         cx.assume(n[0].t * n[0].t + n[1].t * n[1].t + n[2].t * n[2].t > 0)
-        arr = npm.obj([n])
+        if cfg.get("input") == "table":
+            # a table whose generic row holds the normal in the columns named x, y, z (among other columns, in another order)
+            sp = frames.Space(tag="nrm")
+            arr = frames.GFrame(["score", "z", "x", "tomo_id", "y"], {"score": SV(z3.Real("score")), "z": n[2], "x": n[0], "tomo_id": SV(z3.Real("tomo_id")), "y": n[1]}, sp)
+        else:
+            arr = npm.obj([n])
         return (lambda: it.function("normals_to_euler_angles")(arr, cfg["order"])), {"n": n}
 
     def post(self, cx, cfg, inp, res):
-        row = [res[0, j] for j in range(3)]
+        if cfg.get("input") == "table":
+            if not (isinstance(res, frames.RowArr) and res.k == 3):
+                return [("one_orientation_per_row", z3.BoolVal(False))]
+            row = list(res.vals)
+        else:
+            row = [res[0, j] for j in range(3)]
         phi, the, psi = (row[0], row[1], row[2]) if cfg["order"] == "zxz" else (row[0], row[2], row[1])
         (ct, st), (cp, sp) = common.cs_of(the), common.cs_of(psi)
         zax = [sp * st, -cp * st, ct]  # R(phi,theta,psi) e_z, independent of phi
         n = [x.t for x in inp["n"]]
         L = theory.sqrt(SV(n[0] * n[0] + n[1] * n[1] + n[2] * n[2])).t
-        return [(f"z_axis_is_normalised_normal_{j}", L * zax[j] == n[j], ("poly", "linear")) for j in range(3)] + [("shape", z3.BoolVal(tuple(res.shape) == (1, 3)))]
+        return [(f"z_axis_is_normalised_normal_{j}", L * zax[j] == n[j], ("poly", "linear")) for j in range(3)] + ([("shape", z3.BoolVal(tuple(res.shape) == (1, 3)))] if not cfg.get("input") else [])
 
     def replay(self, clause, model, cfg):
         from rtc import c06 as r
